@@ -202,7 +202,7 @@ func TestVerifC07CtxAlreadyDone(t *testing.T) {
 	}
 	ctx, cancel := context.WithCancel(context.Background())
 	cancel()
-	n := vk.N(150000, 3000000)
+	n := c07N(150000, 3000000, 60000)
 	entries := []string{"MapReduce", "MapReduceVoid", "MapReduceChan"}
 	sizes := []int{0, 1, 3}
 	workers := []int{1, 2, 16}
@@ -299,4 +299,74 @@ func TestVerifC07RaceGated(t *testing.T) {
 	defer m.Done()
 	names := append([]string{}, c07CoreClasses...)
 	c07RunClasses(t, m, 40000000, true, vk.N(1, 5), names...)
+}
+
+// TestVerifC07ForEachPanicNotLost: ForEach has no error result, so a panic of the generator or of a
+// mapper is its only abnormal outcome and the statement leaves exactly one legal result: the panic is
+// re-raised in the caller. The schedule that matters (the whole pipeline shuts down before the caller
+// reaches its select, so "collector closed" and "panic pending" are both ready) is rare: large fixed
+// count of tiny calls, as in TestVerifC07CtxAlreadyDone.
+func TestVerifC07ForEachPanicNotLost(t *testing.T) {
+	m := vk.New(t, "C07", "ForEach / FinishVoid whose single mapper (or the generator) panics at once, workers {1,2,16}, fixed call count, GOMAXPROCS rotated 4/16/2/8; the panic value must be re-raised in the caller; afterwards no goroutine in lib/mr frames")
+	defer m.Done()
+	old := runtime.GOMAXPROCS(0)
+	defer runtime.GOMAXPROCS(old)
+	base := map[string]bool{}
+	for id := range c07Goroutines(nil) {
+		base[id] = true
+	}
+	n := c07N(200000, 3000000, 60000)
+	kinds := []string{"ForEach:mapper-panic", "ForEach:generator-panic", "FinishVoid:panic", "ForEach:generator-panic-no-items"}
+	workers := []int{1, 2, 16}
+	procs := []int{4, 16, 2, 8}
+	bad := map[string]bool{}
+	for i := 1; i <= n; i++ {
+		if !m.Only(50000000 + i) {
+			continue
+		}
+		if i%2000 == 1 {
+			runtime.GOMAXPROCS(procs[(i/2000)%len(procs)])
+		}
+		kind := kinds[i%len(kinds)]
+		w := workers[(i/4)%3]
+		if bad[kind] {
+			continue
+		}
+		want := c07Panic{who: kind}
+		pv, panicked := vk.Recover(func() {
+			switch kind {
+			case "ForEach:mapper-panic":
+				mr.ForEach(func(source chan<- any) { source <- 1 }, func(item any) { panic(want) }, mr.WithWorkers(w))
+			case "ForEach:generator-panic":
+				mr.ForEach(func(source chan<- any) { source <- 1; panic(want) }, func(item any) {}, mr.WithWorkers(w))
+			case "ForEach:generator-panic-no-items":
+				mr.ForEach(func(source chan<- any) { panic(want) }, func(item any) {}, mr.WithWorkers(w))
+			case "FinishVoid:panic":
+				mr.FinishVoid(func() { panic(want) })
+			}
+		})
+		got := "panic-reraised"
+		switch {
+		case !panicked:
+			got = "return"
+		case pv != any(want):
+			got = "panic:foreign"
+		}
+		m.Count("outcome_"+got, 1)
+		m.Count("calls_"+kind, 1)
+		m.Case(vk.Digest(kind, w, got), true)
+		if got != "panic-reraised" {
+			bad[kind] = true
+			m.Violate("C07:outcome:foreach-panic:got-"+got, fmt.Sprintf("case=%d;%s", 50000000+i, vk.JSON(map[string]any{"kind": kind, "workers": w})),
+				"call #%d: %s (workers %d): the callback panicked but the call ended with %q (recovered value %v); GOMAXPROCS=%d", i, kind, w, got, pv, runtime.GOMAXPROCS(0))
+		}
+		if i%20000 == 0 {
+			m.Progress()
+		}
+	}
+	var gs map[string]string
+	if !vk.WaitUntil(c07LeakWatch, func() bool { gs = c07Goroutines(base); return len(gs) == 0 }) {
+		m.Violate("C07:leak:foreach-panic", "after the loop", "%d goroutines still in library frames %v after the last call returned\n%s", len(gs), c07LeakWatch, c07Excerpt(gs, 3000))
+	}
+	m.Sample(map[string]any{"loop": "single callback panics at once", "calls": n, "kinds": kinds, "workers": workers})
 }
